@@ -327,14 +327,13 @@ def r4_importer_split(ctx, res):
     res.inst(key, loc, f'{pairs or [r[1][:60] for r in execs]}')
     want = f"[('sense_relations', SENSE_QUERY, {L1}), ('sense_synset_relations', SYNSET_QUERY, {L2})]"
     ok = bool(pairs) and all(c[4:] in (want, '(' + want[1:-1] + ')') for c in pairs)
-    if not ok:
-        # unrolled form: two statements, each with its own table / target query / list
-        t1 = [r for r in execs if 'INSERT INTO sense_relations' in r[1] and '({SENSE_QUERY}),({SENSE_QUERY})' in r[1].replace(' ', '')]
-        ok = False
-        blob = ' '.join(r[1] + ' '.join(r[3]) for r in v.rows)
-        if ('sense_relations' in blob and 'sense_synset_relations' in blob and L1 in blob and L2 in blob and not pairs):
-            ok = _re.search(r"sense_relations'?, SENSE_QUERY, " + _re.escape(L1), blob) is not None \
-                and _re.search(r"sense_synset_relations'?, SYNSET_QUERY, " + _re.escape(L2), blob) is not None
+    if not ok and not pairs:
+        # unrolled form: one statement per table, each over the batches of its own list, with its own target query
+        def unrolled(table, tq, lst):
+            hits = [r for r in execs if _re.search(r"INSERT INTO \{?'?" + table + r"'?\}?\s", r[1])]
+            return len(hits) == 1 and '({SENSE_QUERY}),({' + tq + '})' in hits[0][1].replace(' ', '') \
+                and hits[0][3] == (f'for _batch({lst})',)
+        ok = unrolled('sense_relations', 'SENSE_QUERY', L1) and unrolled('sense_synset_relations', 'SYNSET_QUERY', L2)
     if not ok:
         res.find(key, loc, f'relation lists are no longer paired with tables / target queries as {want}: {pairs}')
 
